@@ -150,7 +150,16 @@ fn table_op(t: &mut Table, p: &[&str]) -> String {
         "reme" => opt(t.remove_entry(p[1]), |(k, i)| format!("{}={}", k.get(), slot(&i))),
         "get" => opt(t.get(p[1]), slot),
         "getmut" => opt(t.get_mut(p[1]), |i| slot(i)),
-        "gkv" => opt(t.get_key_value(p[1]), |(k, i)| format!("{}={}", k.get(), slot(i))),
+        "gkv" => {
+            // `get_key_value` and `get_key_value_mut` must give the same answer
+            let a = opt(t.get_key_value(p[1]), |(k, i)| format!("{}={}", k.get(), slot(i)));
+            let b = opt(t.get_key_value_mut(p[1]), |(k, i)| format!("{}={}", k.get(), slot(i)));
+            if a == b {
+                a
+            } else {
+                format!("{a}!mut:{b}")
+            }
+        }
         "has" => tf(t.contains_key(p[1])),
         "hasv" => tf(t.contains_value(p[1])),
         "hast" => tf(t.contains_table(p[1])),
@@ -214,7 +223,16 @@ fn like_op(item: &mut Item, p: &[&str]) -> String {
         "rem" => opt(t.remove(p[1]), |i| slot(&i)),
         "get" => opt(t.get(p[1]), slot),
         "getmut" => opt(t.get_mut(p[1]), |i| slot(i)),
-        "gkv" => opt(t.get_key_value(p[1]), |(k, i)| format!("{}={}", k.get(), slot(i))),
+        "gkv" => {
+            // `get_key_value` and `get_key_value_mut` must give the same answer
+            let a = opt(t.get_key_value(p[1]), |(k, i)| format!("{}={}", k.get(), slot(i)));
+            let b = opt(t.get_key_value_mut(p[1]), |(k, i)| format!("{}={}", k.get(), slot(i)));
+            if a == b {
+                a
+            } else {
+                format!("{a}!mut:{b}")
+            }
+        }
         "has" => tf(t.contains_key(p[1])),
         "len" => t.len().to_string(),
         "empty" => tf(t.is_empty()),
@@ -304,7 +322,16 @@ fn inline_op(item: &mut Item, p: &[&str]) -> String {
         "reme" => opt(t.remove_entry(p[1]), |(k, v)| format!("{}={}", k.get(), vtok(&v))),
         "get" => opt(t.get(p[1]), vtok),
         "getmut" => opt(t.get_mut(p[1]), |v| vtok(v)),
-        "gkv" => opt(t.get_key_value(p[1]), |(k, i)| format!("{}={}", k.get(), slot(i))),
+        "gkv" => {
+            // `get_key_value` and `get_key_value_mut` must give the same answer
+            let a = opt(t.get_key_value(p[1]), |(k, i)| format!("{}={}", k.get(), slot(i)));
+            let b = opt(t.get_key_value_mut(p[1]), |(k, i)| format!("{}={}", k.get(), slot(i)));
+            if a == b {
+                a
+            } else {
+                format!("{a}!mut:{b}")
+            }
+        }
         "has" => tf(t.contains_key(p[1])),
         "len" => t.len().to_string(),
         "empty" => tf(t.is_empty()),
